@@ -48,6 +48,13 @@ def treeCase (inp impl : String) : CaseOut :=
           if st.live.contains p && !st.live.contains c then plain { st with live := st.live ++ [c] } ("spawned=" ++ treeId c) "spawn-child"
           else plain st "skip" "skip"
         | _ => plain st "bad-op" "bad"
+      else if kind = "sd" then
+        match arg.splitOn ":" with
+        | [ps, name] =>
+          let p := parsePath ps
+          if st.live.contains p && st.live.contains (p ++ [name]) then plain st ("dup=" ++ treeId (p ++ [name])) "spawn-child-duplicate"
+          else plain st "skip" "skip"
+        | _ => plain st "bad-op" "bad"
       else if kind = "sx" then
         match arg.splitOn ":" with
         | [ps, name] =>
@@ -109,7 +116,10 @@ def treeCase (inp impl : String) : CaseOut :=
     -- per-op answers that are not shutdowns are judged by equality with the model (children / parent)
     let firstBad := (List.range (max out.length view.length)).find? fun i => out[i]? ≠ view[i]?
     let fails2 := match firstBad with
-      | some i => if fails.isEmpty then [s!"C08 op#{i} {ops.getD i "?"}: implementation [{view.getD i "?"}] expected [{out.getD i "?"}]"] else []
+      | some i =>
+        -- after a duplicate SpawnChild the difference is also C10's ("a duplicate spawn changes nothing")
+        let lbl := if (ops.take (i + 1)).any (·.startsWith "sd") then "C08+C10" else "C08"
+        if fails.isEmpty then [s!"{lbl} op#{i} {ops.getD i "?"}: implementation [{view.getD i "?"}] expected [{out.getD i "?"}]"] else []
       | none => []
     let allFails := fails ++ fails2
     let spec := if allFails.isEmpty then "ok" else "FAIL:" ++ String.intercalate " | " allFails
